@@ -197,6 +197,65 @@ theorem resolve_idempotent_deterministic (compute : K → V) (cells : K → Opti
     intro k' hk'
     simp [setCell, hk']
 
+/-! ### the Once body itself is deterministic although it iterates over a Go map -/
+
+theorem fmtLe_trans (a b c : Fmt) (h1 : fmtLe a b = true) (h2 : fmtLe b c = true) : fmtLe a c = true := by
+  unfold fmtLe at *
+  by_cases hab : a.probeOrder = b.probeOrder <;> by_cases hbc : b.probeOrder = c.probeOrder
+  · have hac : a.probeOrder = c.probeOrder := hab.trans hbc
+    simp only [hab, hbc, ↓reduceIte, decide_eq_true_eq] at *
+    exact String.le_trans h1 h2
+  · simp only [hab, hbc, ↓reduceIte, decide_eq_true_eq] at *
+    omega
+  · have hac : ¬ a.probeOrder = c.probeOrder := fun e => hab (e.trans hbc.symm)
+    simp only [hbc, hac, ↓reduceIte, decide_eq_true_eq] at *
+    omega
+  · simp only [hab, hbc, ↓reduceIte, decide_eq_true_eq] at h1 h2
+    have hac : ¬ a.probeOrder = c.probeOrder := by omega
+    simp only [hac, ↓reduceIte, decide_eq_true_eq]
+    omega
+
+theorem fmtLe_total (a b : Fmt) : (fmtLe a b || fmtLe b a) = true := by
+  unfold fmtLe
+  by_cases hab : a.probeOrder = b.probeOrder
+  · simp only [hab, ↓reduceIte, Bool.or_eq_true, decide_eq_true_eq]
+    exact String.le_total a.name b.name
+  · have hba : ¬ b.probeOrder = a.probeOrder := fun e => hab e.symm
+    simp only [hab, hba, ↓reduceIte, Bool.or_eq_true, decide_eq_true_eq]
+    omega
+
+/-- two formats that compare equal both ways have the same name and probe order -/
+theorem fmtLe_antisymm (a b : Fmt) (h1 : fmtLe a b = true) (h2 : fmtLe b a = true) : a = b := by
+  unfold fmtLe at *
+  by_cases hab : a.probeOrder = b.probeOrder
+  · simp only [hab, ↓reduceIte, decide_eq_true_eq] at h1 h2
+    have hn := String.le_antisymm h1 h2
+    cases a; cases b; simp_all
+  · have hba : ¬ b.probeOrder = a.probeOrder := fun e => hab e.symm
+    simp only [hab, hba, ↓reduceIte, decide_eq_true_eq] at h1 h2
+    omega
+
+/-- ANY list that is sorted by `sortFormats`' comparator and is a permutation of the group is THE
+    sorted group: the result does not depend on the sorting algorithm (Go's unstable pdqsort) … -/
+theorem any_sort_agrees (l s : List Fmt) (hperm : s.Perm l) (hsorted : s.Pairwise (fun a b => fmtLe a b = true)) :
+    s = sortFormats l := by
+  apply List.Perm.eq_of_pairwise (le := fun a b => fmtLe a b = true) _ hsorted
+  · exact List.pairwise_mergeSort fmtLe_trans fmtLe_total l
+  · exact hperm.trans (List.mergeSort_perm l fmtLe).symm
+  · intro a b _ _ h1 h2
+    exact fmtLe_antisymm a b h1 h2
+
+/-- … nor on the order in which the formats reached the group (Go map iteration order in
+    `resolveGroups`, order of the `init` functions): permuted inputs sort to the same list. -/
+theorem sortFormats_order_independent (l₁ l₂ : List Fmt) (h : l₁.Perm l₂) : sortFormats l₁ = sortFormats l₂ :=
+  any_sort_agrees l₂ (sortFormats l₁) ((List.mergeSort_perm l₁ fmtLe).trans h)
+    (List.pairwise_mergeSort fmtLe_trans fmtLe_total l₁)
+
+/-- hypotheses of `any_sort_agrees` are satisfiable; two registration orders, one result -/
+example : [⟨"mp4", 50⟩, ⟨"mp3", 100⟩] = sortFormats [⟨"mp3", 100⟩, ⟨"mp4", 50⟩]
+    ∧ sortFormats [⟨"mp4", 50⟩, ⟨"mp3", 100⟩] = sortFormats [⟨"mp3", 100⟩, ⟨"mp4", 50⟩] :=
+  ⟨any_sort_agrees _ _ (by decide) (by decide), sortFormats_order_independent _ _ (by decide)⟩
+
 /-- whatever other callers did in between, two callers of the same cell observe the same value -/
 theorem resolve_same_for_all_callers (compute : K → V) (sched : List Nat) (c : Cfg K V G L) (k : K) :
     (resolve compute (interleave compute sched c).cells k).2 = (resolve compute c.cells k).2 := by
